@@ -5,6 +5,8 @@ CONSTANTS MaxItems = 2
  MaxSub = 0
  MaxBlocks = 0
  MaxDepth = 1
+ MaxLeaves = 99
+ Lean = FALSE
  Budget = 2
  IdOffs <- IdOffs3
  Rules = {"assume", "implies_intr", "implies_elim", "substitution", "theorem", "sorry", "", "subproof", "verif_gap1"}
